@@ -103,7 +103,9 @@ func runCase(c *core.Ctx, i int) {
 		layoutCaseL2(c, rng)
 		return
 	}
-	if i%47 == 15 && (i/47)%2 == 1 {
+	// three real engines per ragged case: every 94th case of a quick run (~26), every 376th of a
+	// thorough run (~80 per seed)
+	if i%47 == 15 && (i/47)%2 == 1 && (c.Tier != "thorough" || (i/47)%8 == 1) {
 		raggedCase(c, rng)
 		return
 	}
